@@ -178,6 +178,26 @@ void harness(void)
 #endif
         CHECK_BYTES_EQ(out + b * BLK, exp, BLK, "parallel processing gives block i exactly what the single-block function gives (under the i-th tweak for Mantis)");
     }
+#elif defined(OB_BADSIZE)
+    /* C14 through the real driver and real batch functions: a byte count that is not a whole number of blocks, larger than
+       one batch, returns 0 and leaves the output buffer untouched */
+    OBJ_T e; e.ctx = &ks;
+    { OBJ_T t; CHECK(P(init)(&t) == 1, "init succeeds"); e.vtable = t.vtable; e.parallel_size = t.parallel_size; free(t.ctx); }
+    size_t n = (size_t)NBLK * BLK + EXTRA;
+    static uint8_t outb[NB * BLK + BLK], before[NB * BLK + BLK]; uint8_t inb[NB * BLK + BLK];
+    { uint8_t nd[sizeof outb]; memcpy(outb, nd, sizeof outb); memcpy(before, outb, sizeof outb); }
+    memset(inb, 0, sizeof inb); memcpy(inb, sym_in, sizeof sym_in);
+    int r;
+    (void)exp;
+#if CIPHER == 3
+    r = P(crypt)(outb, inb, sym_tw, n, &e);
+#elif DIR == 0
+    r = P(encrypt)(outb, inb, n, &e);
+#else
+    r = P(decrypt)(outb, inb, n, &e);
+#endif
+    CHECK(r == 0, "a byte count that is not a whole number of blocks is rejected");
+    CHECK_BYTES_EQ(outb, before, sizeof outb, "a rejected call writes nothing to the output buffer, however large the count");
 #elif defined(OB_RT)
     /* C03 through the parallel entry points: decrypt(encrypt(m)) == m and encrypt(decrypt(m)) == m for NBLK blocks */
     OBJ_T e; e.ctx = &ks;
